@@ -55,7 +55,7 @@ def pattern_lengths(rng, pattern, **kw):
 NAMES = ['chap', 'toc', 'a', 'B', 'chap', 'toc', 'left', 'of']
 PSEUDO = ['left', 'right', 'first', 'blank', 'LEFT', 'Right', 'FIRST', 'Blank', 'foo', 'nth']
 NTH_ARGS = ['2n+1', 'odd', 'even', '3', 'n', '-n+3', '2n', '0', '3n-2', '-2n-1', '+5', 'n+0', 'N', '2N+1',
-            '2n + 1', ' 2n+1 ', '4n+1', 'foo', '', '2n+', '1 2', '0n+2', '-0n+0']
+            '2n + 1', ' 2n+1 ', '4n+1', 'foo', '', '2n+', '1 2', '0n+2', '-0n+0', '+', '-', 'n-', '+n', '+ 1', '+/**/', '-n+ ']
 OF_PARTS = [' of chap', ' of a', 'of a', ' of  a ', ' of a b', ' of', ' of 3', ' of /*c*/ a', ' OF a', ' of "a"', '/**/of a']
 LITS = ['+', '>', '.', ';', '*', '~', '|', '=', '!', '/', '%', '&']
 
@@ -132,8 +132,8 @@ def wire_tokens(prelude_tokens):
             for k in range(len(tok.arguments) + 1):
                 try:
                     r = tinycss2.nth.parse_nth(tok.arguments[:k])
-                except Exception:  # tinycss2 1.5: AttributeError on a trailing sign (`2n+`)
-                    table.append('err')
+                except Exception as exc:  # tinycss2 1.5: AttributeError on a trailing sign (`2n+`)
+                    table.append(['err', s(type(exc).__name__)])
                     continue
                 table.append('none' if r is None else [r[0], r[1]])
             out.append(['fn', s(tok.name), args, table])
